@@ -739,6 +739,88 @@ mod tm {
         }
         b.done();
 
+        // toml::Table / toml::Value deserialized from a NON-TOML serde source whose size hints are wrong or hostile
+        {
+            use serde::de::{self, DeserializeSeed, MapAccess, SeqAccess, Visitor};
+            struct Src {
+                entries: usize,
+                hint: Option<usize>,
+                seq: bool,
+            }
+            struct M {
+                left: usize,
+                hint: Option<usize>,
+                i: usize,
+            }
+            impl<'de> MapAccess<'de> for M {
+                type Error = de::value::Error;
+                fn next_key_seed<K: DeserializeSeed<'de>>(&mut self, seed: K) -> Result<Option<K::Value>, Self::Error> {
+                    if self.left == 0 {
+                        return Ok(None);
+                    }
+                    self.left -= 1;
+                    self.i += 1;
+                    seed.deserialize(de::value::StringDeserializer::new(format!("k{}", 9 - self.i))).map(Some)
+                }
+                fn next_value_seed<V: DeserializeSeed<'de>>(&mut self, seed: V) -> Result<V::Value, Self::Error> {
+                    seed.deserialize(de::value::I64Deserializer::new(self.i as i64))
+                }
+                fn size_hint(&self) -> Option<usize> {
+                    self.hint
+                }
+            }
+            impl<'de> SeqAccess<'de> for M {
+                type Error = de::value::Error;
+                fn next_element_seed<T: DeserializeSeed<'de>>(&mut self, seed: T) -> Result<Option<T::Value>, Self::Error> {
+                    if self.left == 0 {
+                        return Ok(None);
+                    }
+                    self.left -= 1;
+                    self.i += 1;
+                    seed.deserialize(de::value::I64Deserializer::new(self.i as i64)).map(Some)
+                }
+                fn size_hint(&self) -> Option<usize> {
+                    self.hint
+                }
+            }
+            impl<'de> de::Deserializer<'de> for Src {
+                type Error = de::value::Error;
+                fn deserialize_any<V: Visitor<'de>>(self, v: V) -> Result<V::Value, Self::Error> {
+                    let m = M { left: self.entries, hint: self.hint, i: 0 };
+                    if self.seq {
+                        v.visit_seq(m)
+                    } else {
+                        v.visit_map(m)
+                    }
+                }
+                serde::forward_to_deserialize_any! { bool i8 i16 i32 i64 i128 u8 u16 u32 u64 u128 f32 f64 char str string bytes byte_buf option unit unit_struct newtype_struct seq tuple tuple_struct map struct enum identifier ignored_any }
+            }
+            let mut f = Blocks::new("tm.foreign-source.sorted", dump);
+            for entries in [0usize, 1, 3] {
+                for hint in [None, Some(0), Some(1), Some(3), Some(1 << 20), Some(usize::MAX / 64), Some(usize::MAX)] {
+                    for seq in [false, true] {
+                        let r = guard(|| {
+                            use serde::Deserialize;
+                            let a = toml::Value::deserialize(Src { entries, hint, seq }).map(|v| {
+                                let mut c = String::new();
+                                canon(&v, &mut c, true);
+                                c
+                            });
+                            let b = if seq { Ok(String::new()) } else { toml::Table::deserialize(Src { entries, hint, seq }).map(|t| {
+                                let mut c = String::new();
+                                canon_table(&t, &mut c, true);
+                                c
+                            }) };
+                            format!("{:?} {:?}", a.map_err(|e| e.to_string()), b.map_err(|e| e.to_string()))
+                        })
+                        .unwrap_or_else(|m| m);
+                        f.item(&r);
+                    }
+                }
+            }
+            f.done();
+        }
+
         // equality is about content, not about insertion order
         let mut e = Blocks::new("tm.eq", dump);
         let perms = [[0, 1, 2], [0, 2, 1], [1, 0, 2], [1, 2, 0], [2, 0, 1], [2, 1, 0]];
